@@ -42,6 +42,7 @@ type h1Run struct {
 	TrigDesc   string
 	TrigOpts   api.Options
 	HaveTrig   bool
+	RunIdx     int
 	DryProbed  int   // C14: the accepted trigger's rate function probed after the run
 	DryMin     int   // smallest value it returned
 	DryMinAtNs int64 // … at this offset from the end of the run
@@ -59,6 +60,9 @@ type h1State struct {
 	scens    *scenarios.Scenarios
 	cur      *scenRT
 	combined f1t.ScenarioFn
+	f1       *f1.F1
+	f1Added  map[string]bool
+	curRec   *Recorder
 }
 
 func sortedFlagArgs(flags map[string]string) []string {
@@ -103,16 +107,18 @@ func h1Main(env *Env, c *H1Cfg, st *h1State) {
 }
 
 func h1OneRun(env *Env, c *H1Cfg, st *h1State, runIdx int) {
+	c = c.forRun(runIdx)
 	g := &runGT{Scenario: fmt.Sprintf("scen%d", runIdx), compInv: make([]int, len(c.Prog.Components))}
 	if c.SameScenario {
 		g.Scenario = "scen0"
 	}
 	rec := NewRecorder(env.Sim)
 	rec.SlowNs = c.SlowOutputNs
-	hr := &h1Run{GT: g, Rec: rec}
+	hr := &h1Run{GT: g, Rec: rec, RunIdx: runIdx}
 	st.Runs = append(st.Runs, hr)
 	rt := &scenRT{env: env, cfg: c, g: g, st: st}
 	st.cur = rt
+	st.curRec = rec
 
 	out := ui.NewOutput(slog.New(rec.Handler()), ui.NewPrinter(recWriter{r: rec}, recWriter{r: rec, err: true}), c.Interactive, true)
 	if st.scens == nil {
@@ -159,11 +165,20 @@ func h1OneRun(env *Env, c *H1Cfg, st *h1State, runIdx int) {
 	common := []string{
 		"--max-duration=" + time.Duration(c.MaxDurationNs).String(),
 		fmt.Sprintf("--concurrency=%d", c.Concurrency),
-		fmt.Sprintf("--max-iterations=%d", c.MaxIterations),
-		fmt.Sprintf("--max-failures=%d", c.MaxFailures),
-		fmt.Sprintf("--max-failures-rate=%d", c.MaxFailRate),
-		fmt.Sprintf("--ignore-dropped=%v", c.IgnoreDropped),
 		fmt.Sprintf("--verbose=%v", c.Verbose),
+	}
+	// a limit at its default is not mentioned on the command line
+	if c.MaxIterations != 0 {
+		common = append(common, fmt.Sprintf("--max-iterations=%d", c.MaxIterations))
+	}
+	if c.MaxFailures != 0 {
+		common = append(common, fmt.Sprintf("--max-failures=%d", c.MaxFailures))
+	}
+	if c.MaxFailRate != 0 {
+		common = append(common, fmt.Sprintf("--max-failures-rate=%d", c.MaxFailRate))
+	}
+	if c.IgnoreDropped {
+		common = append(common, "--ignore-dropped=true")
 	}
 
 	var probe api.RateFunction
@@ -172,8 +187,16 @@ func h1OneRun(env *Env, c *H1Cfg, st *h1State, runIdx int) {
 	if c.Driver == "f1" {
 		// the public entry point: f1.New().Add(...).ExecuteWithArgs(args) (root command, profiling flags,
 		// signal context; no signal is ever delivered inside the simulation)
-		f := f1.New().WithLogger(slog.New(rec.Handler()))
-		f.Add(g.Scenario, rt.scenarioFn)
+		// (one F1 instance per simulated process, executed once per run)
+		if st.f1 == nil {
+			st.f1 = f1.New().WithLogger(slog.New(curHandler{st: st}))
+			st.f1Added = map[string]bool{}
+		}
+		f := st.f1
+		if !st.f1Added[g.Scenario] {
+			st.f1Added[g.Scenario] = true
+			f.Add(g.Scenario, func(t *f1t.T) f1t.RunFn { return st.cur.scenarioFn(t) })
+		}
 		args := append([]string{"run", c.Mode, g.Scenario}, sortedFlagArgs(c.Flags)...)
 		args = append(args, common...)
 		if c.MemProfile {
